@@ -28,7 +28,7 @@ try:
     for i in ids:
         sh(f"git -C {WT} reset -q --hard && git -C {WT} clean -fdq")
         assert sh(f"git -C {WT} apply {V}/benign/{i}/patch.diff").returncode == 0, i
-        for prop in ("C15", "C14"):
+        for prop in ("C15", "C14", "C12"):
             t0 = time.time()
             p = subprocess.run([f"{V}/check", prop, "--no-evidence"], text=True, capture_output=True, env=dict(os.environ, BLDFM_VERIF_REPO=WT, VERIF_MAX_CLASSES="1"), cwd=V)
             want = EXPECT.get((i, prop), 0)
